@@ -77,6 +77,8 @@ func main() {
 		runImpl()
 	case "e2e":
 		runE2E(os.Args[2:])
+	case "c16child":
+		runC16Child(os.Args[2:])
 	default:
 		fmt.Fprintln(os.Stderr, "unknown command", os.Args[1])
 		os.Exit(2)
